@@ -74,11 +74,13 @@ def nest(d, inner):
     return "{% if true %}" * d + inner + "{% endif %}" * d
 
 
-def concretize(g):
-    """graph -> DictLoader templates; t1 is the entry point"""
-    tmpl = {"base": "B{% block body %}b{% endblock %}"}
-    for name, e in g.items():
-        k, to, d = e["k"], e["to"], e["d"]
+def concretize(g, prefix=""):
+    """graph -> DictLoader templates; t1 is the entry point. prefix: templates live under a directory-like name ('layouts/t1'):
+    the engine names a loaded template after the LAST component, so a guard that mixes the two namings never fires"""
+    tmpl = {prefix + "base": "B{% block body %}b{% endblock %}"}
+    for name0, e in g.items():
+        name = prefix + name0
+        k, to, d = e["k"], prefix + e["to"], e["d"]
         if k == "none":
             tmpl[name] = "leaf"
         elif k == "include":
@@ -88,7 +90,7 @@ def concretize(g):
         elif k == "extends":
             tmpl[name] = f"{{% extends '{to}' %}}"
         elif k == "extblock":
-            tmpl[name] = "{% extends 'base' %}{% block body %}" + nest(d, f"{{% include '{to}' %}}") + "{% endblock %}"
+            tmpl[name] = "{% extends '" + prefix + "base' %}{% block body %}" + nest(d, f"{{% include '{to}' %}}") + "{% endblock %}"
         elif k == "call":
             tmpl[name] = "{% macro m %}" + nest(d, "y{% call m %}") + "{% endmacro %}{% call m %}"
     return tmpl
@@ -134,13 +136,14 @@ def replay_graph(case):
     import time
     t0 = time.process_time()
     _install_level_probe()
-    tmpl = concretize(case["g"])
+    prefix = case.get("prefix", "")
+    tmpl = concretize(case["g"], prefix)
     env = harness.make_env(templates=tmpl)
     res = []
     for how in ("sync", "async"):
         def go():
             try:
-                t = env.get_template("t1")
+                t = env.get_template(prefix + "t1")
             except Exception as e:
                 return harness.classify(e)
             return harness.render(t, {}, how)
@@ -197,10 +200,12 @@ def run(tier: str) -> int:
         if r.violated:
             ck.fail(f"Recursion.tla {r.violated} violated", {"tlc": r.out[-3000:]})
     graphs = rrec.emitted
+    # the same families with directory-like template names (only those with an extends / block edge are worth a second run)
+    graphs = graphs + [dict(c, prefix="layouts/") for c in graphs if any(e["k"] in ("extends", "extblock") for e in c["g"].values())]
     if tier == "thorough" and len(graphs) > 20000:
         graphs = rnd.sample(graphs, 20000)
     for case, (tmpl, res) in zip(graphs, par.pmap(replay_graph, graphs, chunk=8)):
-        ck.case(("A", str(case["g"])), nontrivial=case["status"] != "ok")
+        ck.case(("A", case.get("prefix", ""), str(case["g"])), nontrivial=case["status"] != "ok")
         ck.validated()
         cpu = res.pop()[1]
         if cpu > ck.cov.get("max_cpu_s_per_family", 0):
